@@ -27,6 +27,6 @@ func NewStateListener(next http.Handler, stateListener URLForwardingStateListene
 
 func (s *StateListener) ServeHTTP(rw http.ResponseWriter, req *http.Request) {
 	s.stateListener(req.URL, StateConnected)
+	defer s.stateListener(req.URL, StateDisconnected)
 	s.next.ServeHTTP(rw, req)
-	s.stateListener(req.URL, StateDisconnected)
 }
